@@ -71,3 +71,7 @@ where
         _ => Other,
     })
 }
+
+#[cfg(kani)]
+#[path = "/verif/kani/wire_tables.rs"]
+mod verif_kani;
